@@ -59,6 +59,7 @@ type Contract struct {
 	Pure         bool
 	Witness      []string
 	ReadOnlyHeap bool
+	FreshResult  bool
 	decl         *ast.FuncDecl
 }
 
@@ -321,7 +322,7 @@ func (e *Engine) scanGlobals() {
 var clauseKeywords = map[string]bool{"func": true, "theorem": true, "global": true, "props": true, "requires": true,
 	"ensures": true, "panics": true, "modifies": true, "decreases": true, "yields": true, "loop": true, "invariant": true,
 	"let": true, "split": true, "mode": true, "established-by": true, "thin": true, "trusted": true, "assert": true,
-	"ensures-notrace": true, "modifies-heap": true, "witness": true, "callback": true, "readonly-heap": true}
+	"ensures-notrace": true, "modifies-heap": true, "witness": true, "callback": true, "readonly-heap": true, "fresh-result": true, "pure": true}
 
 type rawClause struct {
 	kw   string
@@ -462,6 +463,10 @@ func (e *Engine) loadContracts() error {
 						for _, m := range strings.Fields(strings.ReplaceAll(rc.text, ",", " ")) {
 							cur.Modifies[strings.TrimPrefix(m, "*")] = true
 						}
+					case "pure":
+						cur.Pure = true
+					case "fresh-result":
+						cur.FreshResult = true
 					case "readonly-heap":
 						cur.ReadOnlyHeap = true
 					case "callback":
